@@ -263,4 +263,191 @@ theorem foreign_history {k : Nat} {D : Nat → Prop} {s : Sess} (hs : List Req) 
     rw [e]
     exact ⟨this.1, this.2.trans hsame⟩
 
+/-- applying the same effects to two stores keeps their agreement on any device -/
+theorem applyEffs_agree (a b : State) (es : List Effect) (d : Nat)
+    (hv : a.vouchers.contains d = b.vouchers.contains d) (hb : a.blobs.contains d = b.blobs.contains d) :
+    (applyEffs a es).vouchers.contains d = (applyEffs b es).vouchers.contains d ∧
+    (applyEffs a es).blobs.contains d = (applyEffs b es).blobs.contains d := by
+  unfold applyEffs
+  induction es generalizing a b with
+  | nil => exact ⟨hv, hb⟩
+  | cons e es ih =>
+    simp only [List.foldl_cons]
+    apply ih
+    · cases e with
+      | replaceVoucher k d' =>
+        simp only [applyEff]
+        rw [Bool.eq_iff_iff] at hv ⊢
+        simp only [List.contains_iff_mem, List.mem_filter] at hv ⊢
+        constructor
+        · exact fun h => ⟨hv.mp h.1, h.2⟩
+        · exact fun h => ⟨hv.mpr h.1, h.2⟩
+      | _ => exact hv
+    · cases e with
+      | setBlob k d' =>
+        simp only [applyEff]
+        rw [Bool.eq_iff_iff] at hb ⊢
+        simp only [List.contains_iff_mem, List.mem_cons] at hb ⊢
+        constructor
+        · intro h; rcases h with h | h
+          · exact Or.inl h
+          · exact Or.inr (hb.mp h)
+        · intro h; rcases h with h | h
+          · exact Or.inl h
+          · exact Or.inr (hb.mpr h)
+      | _ => exact hb
+
+section
+variable {st : State} {k : Nat} {s s' : Sess} {r : Req} {resp : Nat} {eff : List Effect}
+
+/-- only HelloDevice sets the device a session is about -/
+theorem handle_guid (hst : isStart r.typ = false) (h : handle st k s r = some (s', resp, eff)) : s'.guid = s.guid := by
+  unfold handle at h
+  split at h
+  all_goals (try (simp at h; done))
+  all_goals rename_i ht
+  all_goals (try (rw [ht] at hst; simp [isStart] at hst; done))
+  · unfold h12 at h; split at h <;> simp at h; obtain ⟨rfl, _, _⟩ := h; rfl
+  · unfold h22 at h; split at h <;> simp at h; obtain ⟨rfl, _, _⟩ := h; rfl
+  · unfold h32 at h; split at h <;> simp at h; obtain ⟨rfl, _, _⟩ := h; rfl
+  · unfold h62 at h; split at h <;> simp at h; obtain ⟨rfl, _, _⟩ := h; rfl
+  · unfold h64 at h; split at h <;> simp at h; obtain ⟨rfl, _, _⟩ := h; rfl
+  · unfold h66 at h; split at h <;> simp at h; obtain ⟨rfl, _, _⟩ := h; rfl
+  · unfold h68 at h
+    split at h
+    · split at h
+      · simp at h; obtain ⟨rfl, _, _⟩ := h; rfl
+      · split at h <;> simp at h; obtain ⟨rfl, _, _⟩ := h; rfl
+    · simp at h
+  · unfold h70 at h
+    split at h
+    · split at h
+      · simp at h; obtain ⟨rfl, _, _⟩ := h; rfl
+      · split at h
+        · split at h <;> simp at h; obtain ⟨rfl, _, _⟩ := h; rfl
+        · simp at h
+    · simp at h
+end
+
+/-- One request of session `k` run in two deployments that agree on `k` and on a device set `D`
+containing everything the request touches: same answer, same resulting session (with the same
+device), and the deployments still agree on `D`. -/
+theorem step_both {D : Nat → Prop} {st1 st2 : State} {r : Req} {k : Nat} {s : Sess}
+    (htok : r.tok = .sess k) (hst : isStart r.typ = false) (h255 : r.typ ≠ 255)
+    (h1 : st1.sessions[k]? = some s) (h2 : st2.sessions[k]? = some s)
+    (hD : ∀ d, Touches s r d → D d) (hsame : SameFor D st1 st2) :
+    (step st1 r).2 = (step st2 r).2 ∧
+    (∃ s', (step st1 r).1.sessions[k]? = some s' ∧ (step st2 r).1.sessions[k]? = some s' ∧ s'.guid = s.guid) ∧
+    SameFor D (step st1 r).1 (step st2 r).1 := by
+  have hloc : SameFor (Touches s r) st1 st2 :=
+    ⟨hsame.reuse, hsame.rounds, fun d hd => hsame.vouchers d (hD d hd), fun d hd => hsame.blobs d (hD d hd)⟩
+  have hres := step_local htok hst h255 h1 h2 hloc
+  have hk1 := lt_of_get h1
+  have hk2 := lt_of_get h2
+  refine ⟨hres.1, ?_, ?_⟩
+  · -- the resulting session
+    have sp := step_spec st2 r
+    generalize hstep : step st2 r = res at sp
+    have hres2 : (step st1 r).1.sessions[k]? = res.1.sessions[k]? := by rw [← hstep]; exact hres.2
+    cases sp with
+    | errMsg h => exact absurd h h255
+    | unknown _ _ => exact ⟨s, by rw [hres2]; exact h2, h2, rfl⟩
+    | startOk _ _ _ _ _ _ h _ => rw [hst] at h; cases h
+    | startErr _ _ _ h _ => rw [hst] at h; cases h
+    | served p k' s0 s' resp eff _ _ _ ht hs0 _ _ hh =>
+      rw [htok] at ht; cases ht
+      rw [h2] at hs0; cases hs0
+      have hget : (applyEffs { st2 with sessions := st2.sessions.set k (finish s' r.typ resp) } eff).sessions[k]?
+          = some (finish s' r.typ resp) := by
+        rw [applyEffs_sessions]; exact List.getElem?_set_self hk2
+      exact ⟨finish s' r.typ resp, by rw [hres2]; exact hget, hget, (handle_guid hst hh : s'.guid = s.guid)⟩
+    | rejected p k' s0 _ _ _ ht hs0 _ _ =>
+      rw [htok] at ht; cases ht
+      rw [h2] at hs0; cases hs0
+      have hget : (st2.sessions.set k (dead s))[k]? = some (dead s) := List.getElem?_set_self hk2
+      exact ⟨dead s, by rw [hres2]; exact hget, hget, rfl⟩
+    | noSession _ _ _ _ _ => exact ⟨s, by rw [hres2]; exact h2, h2, rfl⟩
+  · -- agreement on D afterwards: the same effects were applied to stores that agreed
+    have sp1 := step_spec st1 r
+    have sp2 := step_spec st2 r
+    generalize hs1 : step st1 r = res1 at sp1 hres
+    generalize hs2 : step st2 r = res2 at sp2 hres
+    have heff : res1.2.2 = res2.2.2 := by rw [hres.1]
+    -- both results are the input state with sessions replaced and the effects applied
+    have key : ∀ (st : State) (res : State × Nat × List Effect), StepSpec st r res →
+        ∃ ss, res.1 = applyEffs { st with sessions := ss } res.2.2 := by
+      intro st res sp
+      cases sp with
+      | errMsg _ => exact ⟨_, rfl⟩
+      | unknown _ _ => exact ⟨st.sessions, rfl⟩
+      | startOk _ _ _ _ _ _ _ _ => exact ⟨_, rfl⟩
+      | startErr _ _ _ _ _ => exact ⟨_, rfl⟩
+      | served _ _ _ _ _ _ _ _ _ _ _ _ _ _ => exact ⟨_, rfl⟩
+      | rejected _ _ _ _ _ _ _ _ _ _ => exact ⟨_, rfl⟩
+      | noSession _ _ _ _ _ => exact ⟨st.sessions, rfl⟩
+    obtain ⟨ss1, e1⟩ := key st1 res1 sp1
+    obtain ⟨ss2, e2⟩ := key st2 res2 sp2
+    rw [e1, e2, heff]
+    have c1 := applyEffs_config { st1 with sessions := ss1 } res2.2.2
+    have c2 := applyEffs_config { st2 with sessions := ss2 } res2.2.2
+    refine ⟨by rw [c1.1, c2.1]; exact hsame.reuse, by rw [c1.2, c2.2]; exact hsame.rounds, fun d hd => ?_, fun d hd => ?_⟩
+    · exact (applyEffs_agree { st1 with sessions := ss1 } { st2 with sessions := ss2 } res2.2.2 d (hsame.vouchers d hd) (hsame.blobs d hd)).1
+    · exact (applyEffs_agree { st1 with sessions := ss1 } { st2 with sessions := ss2 } res2.2.2 d (hsame.vouchers d hd) (hsame.blobs d hd)).2
+
+/-- `hist` is the list `mine` of session `k`'s requests interleaved with requests that are foreign to
+`k` and to the devices `D`, each judged in the state it meets -/
+def Interleaved (k : Nat) (D : Nat → Prop) : State → List Req → List Req → Prop
+  | _, [], mine => mine = []
+  | st, q :: hist, mine =>
+      (∃ mine', mine = q :: mine' ∧ Interleaved k D (step st q).1 hist mine') ∨
+      (Foreign k D st q ∧ Interleaved k D (step st q).1 hist mine)
+
+/-- the answers (response type, effects) given along `hist` to the non-start requests under `k`'s token -/
+def answersTo (k : Nat) : State → List Req → List (Nat × List Effect)
+  | _, [] => []
+  | st, q :: hist =>
+    if q.tok = .sess k ∧ isStart q.typ = false then (step st q).2 :: answersTo k (step st q).1 hist
+    else answersTo k (step st q).1 hist
+
+theorem run_cons (st : State) (r : Req) (rs : List Req) :
+    (run st (r :: rs)).2 = (step st r).2 :: (run (step st r).1 rs).2 := by
+  simp [run]
+
+theorem interleaving_irrelevant_aux (k : Nat) (D : Nat → Prop) (hist : List Req) :
+    ∀ (s : Sess) (st1 st2 : State) (mine : List Req),
+      st1.sessions[k]? = some s → st2.sessions[k]? = some s → SameFor D st1 st2 →
+      (∀ d, s.guid = some d → D d) →
+      (∀ r ∈ mine, r.tok = .sess k ∧ isStart r.typ = false ∧ r.typ ≠ 255 ∧ D r.dev) →
+      Interleaved k D st1 hist mine →
+      answersTo k st1 hist = (run st2 mine).2 := by
+  induction hist with
+  | nil =>
+    intro s st1 st2 mine _ _ _ _ _ hi
+    simp only [Interleaved] at hi
+    subst hi
+    simp [answersTo, run]
+  | cons q hist ih =>
+    intro s st1 st2 mine h1 h2 hsame hg hm hi
+    simp only [Interleaved] at hi
+    rcases hi with ⟨mine', rfl, hi'⟩ | ⟨hf, hi'⟩
+    · obtain ⟨htok, hst, h255, hdev⟩ := hm q (by simp)
+      have hD : ∀ d, Touches s q d → D d := by
+        intro d hd
+        rcases hd with h | h
+        · rw [h]; exact hdev
+        · exact hg d h
+      obtain ⟨hans, ⟨s', hs1, hs2, hguid⟩, hsame'⟩ := step_both htok hst h255 h1 h2 hD hsame
+      have := ih s' (step st1 q).1 (step st2 q).1 mine' hs1 hs2 hsame' (by rw [hguid]; exact hg)
+        (fun r hr => hm r (by simp [hr])) hi'
+      rw [run_cons, ← hans, ← this]
+      simp [answersTo, htok, hst]
+    · obtain ⟨hk', hsame'⟩ := foreign_step hf h1
+      have := ih s (step st1 q).1 st2 mine hk' h2 (hsame'.trans hsame) hg hm hi'
+      rw [← this]
+      have hskip : ¬ (q.tok = .sess k ∧ isStart q.typ = false) := by
+        rcases hf with h | ⟨h, _⟩
+        · intro hc; rw [h] at hc; exact absurd hc.2 (by simp)
+        · exact fun hc => h hc.1
+      simp [answersTo, hskip]
+
 end Fdo.Proto.Server
